@@ -853,3 +853,88 @@ pub fn close(a: f64, b: f64, rel: f64) -> bool {
     let scale = a.abs().max(b.abs());
     (a - b).abs() <= rel * scale
 }
+
+// ------------------------------------------------------------------------------------------------
+// watchdog: in-process evaluations cannot be interrupted; an evaluation that the reference says
+// terminates but that is still running after the limit is reported as a violation (hang) and the
+// process exits 1 with a replay file
+
+pub mod watch {
+    use super::*;
+    use std::sync::Mutex;
+    use std::time::Instant;
+
+    struct Slot {
+        since: Instant,
+        property: &'static str,
+        field: &'static str,
+        input: String,
+    }
+    static SLOTS: Mutex<Vec<Option<Slot>>> = Mutex::new(Vec::new());
+    static DONE: AtomicU64 = AtomicU64::new(0);
+    static STARTED: std::sync::Once = std::sync::Once::new();
+    thread_local! { static MY: std::cell::Cell<usize> = const { std::cell::Cell::new(usize::MAX) }; }
+
+    fn limit() -> f64 {
+        std::env::var("VERIF_HANG_LIMIT_S").ok().and_then(|s| s.parse().ok()).unwrap_or(120.0)
+    }
+
+    fn start() {
+        STARTED.call_once(|| {
+            std::thread::spawn(|| {
+                let t0 = Instant::now();
+                loop {
+                    std::thread::sleep(std::time::Duration::from_millis(500));
+                    let g = SLOTS.lock().unwrap();
+                    for s in g.iter().flatten() {
+                        if s.since.elapsed().as_secs_f64() > limit() {
+                            let key = format!("hang:{}", s.input.replace('\n', "⏎"));
+                            let what = format!("`{}` is still being evaluated after {:.0} s although the reference semantics terminates within its fuel bound", s.input.replace('\n', "⏎"), limit());
+                            let dir = format!("{VERIF_ROOT}/replays/{}", s.property);
+                            let _ = std::fs::create_dir_all(&dir);
+                            let path = format!("{dir}/{:016x}.json", hash64(&key));
+                            let mut case = serde_json::Map::new();
+                            case.insert(s.field.into(), json!(s.input));
+                            case.insert("hang".into(), json!(true));
+                            let body = json!({"property": s.property, "key": key, "what": what, "case": J::Object(case)});
+                            let _ = std::fs::write(&path, serde_json::to_string_pretty(&body).unwrap());
+                            let tier = std::env::args().skip_while(|a| a != "--tier").nth(1).unwrap_or_else(|| "quick".into());
+                            let evidence = json!({
+                                "property_id": s.property, "tier": tier, "seed": 0, "level": "model_checking",
+                                "coverage": {
+                                    "states": DONE.load(Ordering::Relaxed), "transitions": DONE.load(Ordering::Relaxed),
+                                    "traces_validated_against_impl": DONE.load(Ordering::Relaxed),
+                                    "evaluations": DONE.load(Ordering::Relaxed), "distinct_nontrivial": 0,
+                                    "rule": "run aborted by the hang watchdog; counts are the evaluations completed before the abort",
+                                    "samples": [s.input], "exhaustive": false,
+                                },
+                                "wall_s": t0.elapsed().as_secs_f64(), "violations": 1,
+                            });
+                            let _ = std::fs::write(format!("{VERIF_ROOT}/evidence/{}.json", s.property), serde_json::to_string_pretty(&evidence).unwrap());
+                            println!("VIOLATION property={} replay={} key={} :: {}", s.property, path, key, what);
+                            std::process::exit(1);
+                        }
+                    }
+                }
+            });
+        });
+    }
+
+    /// Runs `f` (an uninterruptible evaluation of `input` by the implementation) under the watchdog.
+    pub fn watched<T>(property: &'static str, field: &'static str, input: &str, f: impl FnOnce() -> T) -> T {
+        start();
+        let idx = MY.with(|m| {
+            if m.get() == usize::MAX {
+                let mut g = SLOTS.lock().unwrap();
+                g.push(None);
+                m.set(g.len() - 1);
+            }
+            m.get()
+        });
+        SLOTS.lock().unwrap()[idx] = Some(Slot { since: Instant::now(), property, field, input: input.to_string() });
+        let r = f();
+        SLOTS.lock().unwrap()[idx] = None;
+        DONE.fetch_add(1, Ordering::Relaxed);
+        r
+    }
+}
